@@ -36,6 +36,9 @@ def tokens(key: str) -> Set[str]:
     return set(_ident.findall(key))
 
 
+PURE_BUILTINS = ('callable', 'isinstance', 'issubclass', 'len', 'bool', 'hasattr', 'type', 'id')
+
+
 class Canon:
     """Expression normalisation: casts stripped, trivial properties / accessors inlined, single-assignment local
     aliases substituted."""
@@ -77,12 +80,34 @@ class Canon:
                             else:
                                 counts[x.id] += 1
         self._stable_params = {p for p in params if p not in counts and p not in ('self', 'cls')}
+        # a parameter that is only re-bound BEFORE the alias is made (``if ctx is None: ctx = Default()`` ... ``loader = ctx.loader``)
+        # is as good as a never-reassigned one for that alias: source-order position of every store and of every alias definition
+        order: Dict[int, int] = {}
+        last_store: Dict[str, int] = {}
+
+        def number(nodes, k=[0]):
+            for n in nodes:
+                if isinstance(n, (ast.FunctionDef, ast.AsyncFunctionDef, ast.Lambda, ast.ClassDef)):
+                    continue
+                k[0] += 1
+                order[id(n)] = k[0]
+                if isinstance(n, ast.Name) and isinstance(n.ctx, (ast.Store, ast.Del)):
+                    last_store[n.id] = k[0]
+                number(ast.iter_child_nodes(n), k)
+        number(f.body)
         out = {}
         for name, c in counts.items():
             if c == 1 and name in vals and name not in params:
                 v = strip_cast(vals[name])
-                if self._inlinable(v):
-                    out[name] = v
+                at = order.get(id(vals[name]), 0)
+                settled = {p for p in last_store if p not in ('self', 'cls') and p != name and last_store[p] < at}
+                saved = self._stable_params
+                self._stable_params = saved | settled
+                try:
+                    if self._inlinable(v):
+                        out[name] = v
+                finally:
+                    self._stable_params = saved
         return out
 
     def _inlinable(self, v: ast.expr) -> bool:
@@ -121,6 +146,14 @@ class Canon:
             if inl is not None:
                 return self.expr(inl, _depth + 1)
             return ast.Call(func=newf, args=[], keywords=[])
+        if isinstance(e, ast.Call) and isinstance(e.func, ast.Name) and e.func.id in PURE_BUILTINS and not e.keywords \
+                and not any(isinstance(a, ast.Starred) for a in e.args):
+            # ``callable(default)`` with ``default = port.default``: the predicate is about port.default
+            return ast.Call(func=e.func, args=[self.expr(a, _depth + 1) for a in e.args], keywords=[])
+        if isinstance(e, ast.Call) and isinstance(e.func, ast.Attribute) and e.args and not e.keywords and not any(isinstance(a, ast.Starred) for a in e.args):
+            # ``instr.is_true(wc)`` with ``instr = self._instr; wc = self._workchain``: names of locals do not belong in the key of a predicate
+            base = self.expr(e.func.value, _depth + 1)
+            return ast.Call(func=ast.Attribute(value=base, attr=e.func.attr, ctx=ast.Load()), args=[self.expr(a, _depth + 1) for a in e.args], keywords=[])
         return e
 
     def _inline_accessor(self, attr: ast.Attribute, is_call: bool) -> Optional[ast.expr]:
